@@ -3392,6 +3392,19 @@ void simplecpp::preprocess(simplecpp::TokenList &output, const simplecpp::TokenL
             }
             output.clear();
             return;
+        } catch (const Macro::Error& e) {
+            // Macro::parseDefine reports some ill-formed definitions (e.g. __VA_OPT__ misuse) with Macro::Error,
+            // which is not a std::exception
+            if (outputList) {
+                simplecpp::Output err{
+                    Output::DUI_ERROR,
+                    {},
+                    e.what
+                };
+                outputList->emplace_back(std::move(err));
+            }
+            output.clear();
+            return;
         }
     }
 
